@@ -96,24 +96,62 @@ def _xt(repo: Repo, fi: FuncInfo, e: ast.AST) -> str:
     return xtext(repo, fi, e)
 
 
+def entry_calls(repo: Repo, fi: FuncInfo) -> list[tuple[ast.Call, str, str]]:
+    """calls of a registered user callback in fi: (call, origin, what is passed).  A registry entry is the
+    (callback, endmarker, strconfig) tuple kept in `_callbacks`; the callback is its element 0 -- reached by
+    destructuring (`cb, em, sc = entry`) or by index (`entry[0](x)`; NamedTuple field reads are desugared to that).
+    `what` is 'endmarker' when the argument is element 1 of the same entry (or the endmarker parameter), else 'item'."""
+    out = []
+    bound: dict[str, tuple[str, int]] = {}
+    params = fi.params()
+    for n in repo.own_nodes(fi):
+        if isinstance(n, ast.Assign) and isinstance(n.targets[0], ast.Tuple):
+            src = _xt(repo, fi, n.value)
+            if "_callbacks" in src:
+                for i, e in enumerate(n.targets[0].elts):
+                    if isinstance(e, ast.Name):
+                        bound[e.id] = (src, i)
+
+    def entry_pos(e: ast.AST) -> tuple[str, int] | None:
+        if isinstance(e, ast.Name) and e.id in bound:
+            return bound[e.id]
+        if isinstance(e, ast.Subscript) and isinstance(e.slice, ast.Constant) and isinstance(e.slice.value, int):
+            base = _xt(repo, fi, e.value)
+            if "_callbacks" in base:
+                return (base, e.slice.value)
+        if isinstance(e, ast.Name):
+            al = repo.local_alias(e.id, fi)
+            if al is not None and not isinstance(al, ast.Constant) and not isinstance(al, ast.Name):
+                return entry_pos(al)
+        return None
+
+    for c in repo.calls_in(fi):
+        origin = None
+        if isinstance(c.func, ast.Name) and c.func.id == "callback" and "callback" in params:
+            origin, base = "parameter", None
+        else:
+            ep = entry_pos(c.func)
+            if ep is not None and ep[1] == 0:
+                origin, base = "_callbacks entry", ep[0]
+        if origin is None:
+            continue
+        what = "item"
+        if c.args:
+            ap = entry_pos(c.args[0])
+            if (ap is not None and ap[1] == 1 and (base is None or ap[0] == base)) or (isinstance(c.args[0], ast.Name) and c.args[0].id == "endmarker" and "endmarker" in params):
+                what = "endmarker"
+        out.append((c, origin, what))
+    return out
+
+
 def callback_invocations(repo: Repo) -> list[tuple[FuncInfo, ast.Call, str]]:
     """calls of a user-supplied channel callback: (function, call, origin)"""
     out = []
     for fi in repo.scan_funcs():
         if fi.module.name != GB:
             continue
-        names: dict[str, str] = {}
-        for p in fi.params():
-            if p == "callback":
-                names[p] = "parameter"
-        for n in repo.own_nodes(fi):
-            if isinstance(n, ast.Assign) and isinstance(n.targets[0], ast.Tuple) and ("_callbacks" in _xt(repo, fi, n.value) or unparse(n.value) == "item"):
-                first = n.targets[0].elts[0]
-                if isinstance(first, ast.Name):
-                    names[first.id] = "_callbacks entry"
-        for c in repo.calls_in(fi):
-            if isinstance(c.func, ast.Name) and c.func.id in names:
-                out.append((fi, c, names[c.func.id]))
+        for (c, origin, _what) in entry_calls(repo, fi):
+            out.append((fi, c, origin))
     return out
 
 
